@@ -316,6 +316,67 @@ def constmap_hash_sites(db, rep, prog):
             'hash-distinguishes-other-bytes': (distinct, 'constmap.c:hash', 'hash of single non-letter bytes collide', [])}
 
 
+def constmap_table_sites(db, rep, prog):
+    """constmap_init() on a concrete list, then constmap() for concrete keys: a key is found exactly when it equals an entry
+    (the part before the colon, for a colon table) up to the case of A-Z, and the value handed back is the text after it"""
+    from rules import libtab as _lt
+    ci = db.fn('constmap.c', 'constmap_init')
+    cm = db.fn('constmap.c', 'constmap')
+
+    class CM(_lt.SAConc, _lt.Conc):
+        def prim_alloc(self, E, x, args):
+            k = (_lt._one(E.get('$heap')) or 0) + 1
+            return [Outcome(ret=fs(('&', 'HEAP%d[0]' % k)), sets={'$heap': fs(k)})]
+
+        def prim_alloc_free(self, E, x, args):
+            return [Outcome(ret=TOP)]
+
+        prim_malloc = prim_alloc
+        prim_free = prim_alloc_free
+    bad = None
+    n = 0
+    for flagcolon, entries in ((0, [b'Abc', b'x.Y', b'', b'k:v', b'abd']), (1, [b'Abc:one', b'nocolon', b'x.Y:', b':empty', b'abc2:two:2'])):
+        tab = b''.join(e + b'\0' for e in entries)
+        H = CM('constmap_init')
+        st = {0: fs(('&', 'CM')), 1: fs(('&', 'TAB[0]')), 2: fs(len(tab)), 3: fs(flagcolon)}
+        st.update(_lt.conc_string_cells('TAB', tab, terminate=False))
+        _lt._run_conc(db, rep, prog, ci, st, 'constmap_init', H)
+        if len(H.ends) != 1 or _lt.one(H.ends[0][1]) != 1:
+            raise AnalysisBroken('constmap_init: %d ends (result %s) for a %d-entry list' % (len(H.ends), [e[1] for e in H.ends][:2], len(entries)))
+        built = {k: v for k, v in H.ends[0][0].items() if '::' not in k}
+        want = {}
+        off = 0
+        for e in entries:
+            start, off = off, off + len(e) + 1
+            if flagcolon:
+                if b':' not in e:
+                    continue
+                key, val = e.split(b':', 1)
+            else:
+                key, val = e, None
+            want[key.lower()] = (val, start + len(key) + 1)       # a later entry with the same key is found first
+        keys = [b'abc', b'ABC', b'aBc', b'abd', b'abe', b'ab', b'abcd', b'X.y', b'x.y', b'', b'k', b'k:v', b'nocolon', b'abc2', b'abc:one', b'[bc', b'ABC2']
+        for key in keys:
+            H2 = CM('constmap')
+            st2 = dict(built)
+            st2.update({0: fs(('&', 'CM')), 1: fs(('&', 'KEY[0]')), 2: fs(len(key))})
+            st2.update(_lt.conc_string_cells('KEY', key + b'#', terminate=False))
+            _lt._run_conc(db, rep, prog, cm, st2, 'constmap', H2)
+            n += 1
+            if len(H2.ends) != 1:
+                raise AnalysisBroken('constmap: %d ends for the key %r' % (len(H2.ends), key))
+            got = _lt.one(H2.ends[0][1])
+            exp = want.get(key.lower())
+            if exp is None:
+                okk = got == 0
+            else:
+                okk = got == ('&', 'TAB[%d]' % exp[1])
+            if not okk and bad is None:
+                bad = 'list %r (%s): the key %r gives %s; documented: %s' % ([e.decode() for e in entries], 'key:value entries' if flagcolon else 'plain entries', key.decode(), got,
+                                                                              'not listed (0)' if exp is None else 'the text after the entry %r' % key.decode())
+    return {'constmap:found-iff-listed-up-to-case,value-is-the-text-after-the-key': (bad is None, 'constmap.c', bad or '%d lookups in 2 tables' % n, [])}
+
+
 def run(ctx):
     db, rep = ctx.db, ctx.report
     prog = db.program('qmail-send')
@@ -372,11 +433,11 @@ def run(ctx):
     hf = db.fn('constmap.c', 'hash')
     cm = db.fn('constmap.c', 'constmap')
     ci = db.fn('constmap.c', 'constmap_init')
-    r3.check(bool(cm.calls('hash')) and bool(ci.calls('hash')), 'init-and-lookup-share-hash', 'constmap.c', 'constmap() and constmap_init() must both call hash()')
-    r3.check(bool(cm.calls('case_diffb')), 'lookup-compares-with-case_diffb', 'constmap.c:constmap', 'the key comparison must ignore case')
+    for inst_, v_ in sorted(constmap_table_sites(db, rep, prog).items()):
+        r3.check(v_[0], inst_, v_[1], v_[2], v_[3])
     for inst_, v_ in sorted(constmap_hash_sites(db, rep, prog).items()):
         r3.check(v_[0], inst_, v_[1], v_[2], v_[3])
-    r3.expect_min(4)
+    r3.expect_min(3)
 
     r6 = rep.rule('C10.6-control-files', 'R-TABLE', 'control_readfile(): the list handed to constmap holds exactly the non-empty, non-comment lines with trailing blanks removed (so an empty domain is never "listed")')
     for inst, v in sorted(control_file_sites(db, rep, prog).items()):
